@@ -1,3 +1,397 @@
 package main
 
-func replayScalar(v *Verifier, o *Oblig, rec map[string]any) {}
+// Replay of a solver counterexample on the real code, for functions whose
+// parameters, receiver and results are scalars (integers, booleans, errors):
+// a Go test is generated that calls the real function with the model's inputs
+// and evaluates every `ensures` clause of its contract (translated to Go);
+// it is injected with `go test -overlay`, nothing is written into /repo.
+
+import (
+	"bytes"
+	"encoding/json"
+	"fmt"
+	"go/types"
+	"math/big"
+	"os"
+	"os/exec"
+	"path/filepath"
+	"regexp"
+	"strings"
+)
+
+var valRe = regexp.MustCompile(`\(\s*([A-Za-z_][^\s()]*)\s+(\(-\s*\d+\)|-?\d+|true|false|#x[0-9a-fA-F]+|#b[01]+)\s*\)`)
+
+func parseModelValues(out string) map[string]string {
+	m := map[string]string{}
+	for _, mt := range valRe.FindAllStringSubmatch(out, -1) {
+		val := mt[2]
+		if strings.HasPrefix(val, "(-") {
+			val = "-" + strings.TrimSpace(strings.Trim(val[2:], " )"))
+		}
+		if strings.HasPrefix(val, "#x") {
+			n, _ := new(big.Int).SetString(val[2:], 16)
+			val = n.String()
+		} else if strings.HasPrefix(val, "#b") {
+			n, _ := new(big.Int).SetString(val[2:], 2)
+			val = n.String()
+		}
+		m[mt[1]] = val
+	}
+	return m
+}
+
+type goPrinter struct {
+	v      *Verifier
+	env    *CEnv
+	vars   map[string]types.Type // contract names of params/results -> Go type
+	specs  map[string]string     // generated Go helper functions
+	failed string
+	depth  int
+}
+
+func (g *goPrinter) fail(format string, a ...any) string {
+	if g.failed == "" {
+		g.failed = fmt.Sprintf(format, a...)
+	}
+	return "false"
+}
+
+func isBoolType(t types.Type) bool { return t != nil && isBool(t) }
+
+// expr prints e as Go; integers are int64, booleans bool.
+func (g *goPrinter) expr(e *CExpr, locals map[string]string) (string, string) { // (code, kind: "int"|"bool"|"err")
+	switch e.Kind {
+	case "num":
+		if !e.Val.IsInt64() {
+			return g.fail("constant %s does not fit int64", e.Val), "int"
+		}
+		return fmt.Sprintf("int64(%s)", e.Val.String()), "int"
+	case "ident":
+		if l, ok := locals[e.Name]; ok {
+			return l, "int"
+		}
+		if e.Name == "true" || e.Name == "false" {
+			return e.Name, "bool"
+		}
+		if e.Name == "nil" {
+			return "nil", "err"
+		}
+		if t, ok := g.vars[e.Name]; ok {
+			if isBoolType(t) {
+				return "v_" + e.Name, "bool"
+			}
+			if _, _, isInt := intInfo(t); isInt {
+				return "int64(v_" + e.Name + ")", "int"
+			}
+			if types.Identical(t, types.Universe.Lookup("error").Type()) {
+				return "v_" + e.Name, "err"
+			}
+			return g.fail("variable %s of type %s", e.Name, t), "int"
+		}
+		if g.env.pkg != nil {
+			if o := g.env.pkg.Scope().Lookup(e.Name); o != nil {
+				if c, ok := o.(*types.Const); ok {
+					if isBoolType(c.Type()) {
+						return e.Name, "bool"
+					}
+					return "int64(" + e.Name + ")", "int"
+				}
+			}
+		}
+		return g.fail("identifier %s", e.Name), "int"
+	case "un":
+		x, k := g.expr(e.X, locals)
+		switch e.Op {
+		case "!":
+			return "(!" + x + ")", "bool"
+		case "-":
+			return "(-" + x + ")", k
+		}
+	case "cond":
+		c, _ := g.expr(e.X, locals)
+		a, k := g.expr(e.Y, locals)
+		b, _ := g.expr(e.Z, locals)
+		return fmt.Sprintf("gvcIte(%s, %s, %s)", c, a, b), k
+	case "bin":
+		a, ka := g.expr(e.X, locals)
+		b, kb := g.expr(e.Y, locals)
+		switch e.Op {
+		case "&&", "||":
+			return "(" + a + " " + e.Op + " " + b + ")", "bool"
+		case "==>":
+			return "(!" + a + " || " + b + ")", "bool"
+		case "<==>":
+			return "(" + a + " == " + b + ")", "bool"
+		case "==", "!=", "<", "<=", ">", ">=":
+			if ka == "err" || kb == "err" {
+				return "(" + a + " " + e.Op + " " + b + ")", "bool"
+			}
+			return "(" + a + " " + e.Op + " " + b + ")", "bool"
+		case "+", "-", "*":
+			return "(" + a + " " + e.Op + " " + b + ")", "int"
+		case "/":
+			return "gvcDiv(" + a + ", " + b + ")", "int"
+		case "%":
+			return "gvcMod(" + a + ", " + b + ")", "int"
+		case "<<":
+			return "(" + a + " << uint(" + b + "))", "int"
+		case ">>":
+			return "(" + a + " >> uint(" + b + "))", "int"
+		case "&":
+			return "(" + a + " & " + b + ")", "int"
+		case "|":
+			return "(" + a + " | " + b + ")", "int"
+		case "^":
+			return "(" + a + " ^ " + b + ")", "int"
+		}
+	case "call":
+		name := ""
+		if e.X.Kind == "ident" {
+			name = e.X.Name
+		}
+		if len(e.Args) == 1 {
+			if _, isType := g.env.tryType(name); isType {
+				x, k := g.expr(e.Args[0], locals)
+				return x, k // conversions are identities on mathematical integers
+			}
+		}
+		if name == "abs" {
+			x, _ := g.expr(e.Args[0], locals)
+			return "gvcAbs(" + x + ")", "int"
+		}
+		if sf := g.v.eng.lookupSpec(name, g.env.pkg); sf != nil && sf.Body != nil {
+			fn := g.specFunc(sf)
+			var as []string
+			for _, a := range e.Args {
+				x, _ := g.expr(a, locals)
+				as = append(as, x)
+			}
+			kind := "int"
+			if sf.Result.Kind == "name" && sf.Result.Name == "bool" {
+				kind = "bool"
+			}
+			return fn + "(" + strings.Join(as, ", ") + ")", kind
+		}
+		return g.fail("call %s", e), "int"
+	}
+	return g.fail("expression %s", e), "int"
+}
+
+func (g *goPrinter) specFunc(sf *SpecFunc) string {
+	name := "gvcSpec_" + smtIdent(sf.Name)
+	if _, ok := g.specs[name]; ok {
+		return name
+	}
+	g.specs[name] = "" // recursion guard
+	g.depth++
+	if g.depth > 40 {
+		g.fail("spec recursion")
+		return name
+	}
+	locals := map[string]string{}
+	var ps []string
+	for _, p := range sf.Params {
+		locals[p.Name] = "p_" + p.Name
+		ps = append(ps, "p_"+p.Name+" int64")
+	}
+	body, kind := g.expr(sf.Body, locals)
+	rt := "int64"
+	if kind == "bool" {
+		rt = "bool"
+	}
+	g.specs[name] = fmt.Sprintf("func %s(%s) %s { return %s }\n", name, strings.Join(ps, ", "), rt, body)
+	g.depth--
+	return name
+}
+
+func goLiteral(val string, t types.Type) string {
+	if isBoolType(t) {
+		return val
+	}
+	tn := types.TypeString(t, func(p *types.Package) string { return "" })
+	n, _ := new(big.Int).SetString(val, 10)
+	if n == nil {
+		return tn + "(0)"
+	}
+	// wrap into the type's range (BV models are unsigned)
+	w, signed, _ := intInfo(t)
+	if w > 0 {
+		n.Mod(n, Pow2(w))
+		if signed {
+			n = toSigned(n, w)
+		}
+	}
+	if n.Sign() < 0 {
+		return fmt.Sprintf("%s(%s)", tn, n.String())
+	}
+	return fmt.Sprintf("%s(%s)", tn, n.String())
+}
+
+func replayScalar(v *Verifier, o *Oblig, rec map[string]any) {
+	fc := v.fc
+	if fc == nil || v.decl == nil || fc.IsLit > 0 || v.sig == nil {
+		return
+	}
+	vals := parseModelValues(o.Model)
+	paramIn := o.paramIn
+	if paramIn == nil {
+		paramIn = v.paramIn
+	}
+	// all parameters and the receiver must be scalars with model values
+	type pv struct {
+		cname string
+		ty    types.Type
+		lit   string
+	}
+	var params []pv
+	var recvLit string
+	scalar := func(t types.Type) bool {
+		if isBoolType(t) {
+			return true
+		}
+		_, _, ok := intInfo(t)
+		return ok
+	}
+	if v.sig.Recv() != nil {
+		rt := v.sig.Recv().Type()
+		if !scalar(rt) {
+			return
+		}
+		sym := paramIn[fc.RecvName]
+		if sym == nil {
+			return
+		}
+		val, ok := vals[sym.Op]
+		if sym.IsLit {
+			val, ok = sym.Int.String(), true
+		}
+		if !ok {
+			val = "0"
+		}
+		recvLit = goLiteral(val, rt)
+	}
+	vars := map[string]types.Type{}
+	if fc.RecvName != "" && v.sig.Recv() != nil {
+		vars[fc.RecvName] = v.sig.Recv().Type()
+	}
+	for i := 0; i < v.sig.Params().Len(); i++ {
+		pt := v.sig.Params().At(i).Type()
+		if !scalar(pt) || i >= len(fc.Params) {
+			return
+		}
+		sym := paramIn[fc.Params[i].Name]
+		val := "0"
+		if sym != nil {
+			if sym.IsLit && sym.Int != nil {
+				val = sym.Int.String()
+			} else if sym.IsLit {
+				val = sym.Op
+			} else if mv, ok := vals[sym.Op]; ok {
+				val = mv
+			}
+		}
+		params = append(params, pv{fc.Params[i].Name, pt, goLiteral(val, pt)})
+		vars[fc.Params[i].Name] = pt
+	}
+	errT := types.Universe.Lookup("error").Type()
+	for i := 0; i < v.sig.Results().Len(); i++ {
+		rt := v.sig.Results().At(i).Type()
+		if !scalar(rt) && !types.Identical(rt, errT) {
+			return
+		}
+		if i < len(fc.Results) {
+			vars[fc.Results[i].Name] = rt
+		}
+	}
+	if len(fc.Results) != v.sig.Results().Len() {
+		return
+	}
+	env := v.newEnv(v.pkg.Types)
+	g := &goPrinter{v: v, env: env, vars: vars, specs: map[string]string{}}
+	var checks []string
+	for k, c := range fc.clauses("ensures") {
+		code, _ := g.expr(c.Expr, map[string]string{})
+		if g.failed != "" {
+			rec["replay_note"] = "contract clause not executable in replay: " + g.failed
+			return
+		}
+		checks = append(checks, fmt.Sprintf("\tif !(%s) {\n\t\tt.Errorf(\"GVC-REPLAY-FAIL ensures #%d violated: %%s\", %q)\n\t}\n", code, k+1, c.Text))
+	}
+	var sb strings.Builder
+	fmt.Fprintf(&sb, "package %s\n\nimport \"testing\"\n\n", v.pkg.Types.Name())
+	sb.WriteString("func gvcIte[T any](c bool, a, b T) T {\n\tif c {\n\t\treturn a\n\t}\n\treturn b\n}\n")
+	sb.WriteString("func gvcMod(a, b int64) int64 {\n\tm := a % b\n\tif m < 0 {\n\t\tif b < 0 {\n\t\t\tm -= b\n\t\t} else {\n\t\t\tm += b\n\t\t}\n\t}\n\treturn m\n}\n")
+	sb.WriteString("func gvcDiv(a, b int64) int64 { return (a - gvcMod(a, b)) / b }\n")
+	sb.WriteString("func gvcAbs(a int64) int64 {\n\tif a < 0 {\n\t\treturn -a\n\t}\n\treturn a\n}\n")
+	for _, k := range sortedKeys(g.specs) {
+		sb.WriteString(g.specs[k])
+	}
+	sb.WriteString("\nfunc TestGvcReplay(t *testing.T) {\n")
+	sb.WriteString("\tdefer func() {\n\t\tif r := recover(); r != nil {\n\t\t\tt.Errorf(\"GVC-REPLAY-FAIL panic: %v\", r)\n\t\t}\n\t}()\n")
+	var argNames []string
+	for _, p := range params {
+		fmt.Fprintf(&sb, "\tv_%s := %s\n\t_ = v_%s\n", p.cname, p.lit, p.cname)
+		argNames = append(argNames, "v_"+p.cname)
+	}
+	callee := fc.Name
+	if v.sig.Recv() != nil {
+		rn := fc.RecvName
+		if rn == "" {
+			rn = "recv"
+		}
+		fmt.Fprintf(&sb, "\tv_%s := %s\n\t_ = v_%s\n", rn, recvLit, rn)
+		callee = "v_" + rn + "." + fc.Name
+	}
+	var resNames []string
+	for _, r := range fc.Results {
+		resNames = append(resNames, "v_"+r.Name)
+	}
+	if len(resNames) > 0 {
+		fmt.Fprintf(&sb, "\t%s := %s(%s)\n", strings.Join(resNames, ", "), callee, strings.Join(argNames, ", "))
+		for _, r := range resNames {
+			fmt.Fprintf(&sb, "\t_ = %s\n", r)
+		}
+	} else {
+		fmt.Fprintf(&sb, "\t%s(%s)\n", callee, strings.Join(argNames, ", "))
+	}
+	for _, c := range checks {
+		sb.WriteString(c)
+	}
+	sb.WriteString("}\n")
+	src := sb.String()
+	rec["replay_test"] = src
+
+	// inject with -overlay
+	pkgDir := ""
+	if len(v.pkg.GoFiles) > 0 {
+		pkgDir = filepath.Dir(v.pkg.GoFiles[0])
+	}
+	if pkgDir == "" {
+		return
+	}
+	work := filepath.Join(verifRoot, "scratch", fmt.Sprintf("replay-%d", os.Getpid()))
+	os.MkdirAll(work, 0o755)
+	defer os.RemoveAll(work)
+	testFile := filepath.Join(work, "zz_gvc_replay_test.go")
+	os.WriteFile(testFile, []byte(src), 0o644)
+	ov := map[string]map[string]string{"Replace": {filepath.Join(pkgDir, "zz_gvc_replay_test.go"): testFile}}
+	ovb, _ := json.Marshal(ov)
+	ovFile := filepath.Join(work, "overlay.json")
+	os.WriteFile(ovFile, ovb, 0o644)
+	cmd := exec.Command("go", "test", "-overlay", ovFile, "-vet=off", "-count=1", "-timeout", "60s", "-run", "^TestGvcReplay$", ".")
+	cmd.Dir = pkgDir
+	var out bytes.Buffer
+	cmd.Stdout = &out
+	cmd.Stderr = &out
+	err := cmd.Run()
+	text := out.String()
+	if len(text) > 4000 {
+		text = text[:4000]
+	}
+	rec["replay_output"] = text
+	rec["replay_cmd"] = "cd " + pkgDir + " && go test -overlay <overlay adding zz_gvc_replay_test.go> -vet=off -count=1 -timeout 60s -run '^TestGvcReplay$' ."
+	if err != nil && strings.Contains(text, "GVC-REPLAY-FAIL") {
+		o.replayed = true
+		rec["replay"] = "counterexample reproduced on the real code"
+	}
+}
